@@ -15,6 +15,7 @@
 //!         -> the output fed back into `tfm_to_pl`     (must not panic)
 
 pub mod corpus;
+pub mod fuzz;
 pub mod plmut;
 
 use corpus::corpus;
@@ -26,7 +27,7 @@ pub static MONITOR: M = M;
 // ------------------------------------------------------------------------------------------
 // oracle
 
-fn variant_name<T: std::fmt::Debug>(t: &T) -> String {
+pub(crate) fn variant_name<T: std::fmt::Debug>(t: &T) -> String {
     let s = format!("{t:?}");
     s.split(|c: char| !(c.is_alphanumeric() || c == '_'))
         .next()
@@ -264,7 +265,7 @@ fn chain_from_pl(obs: &mut Obs, text: &str, how: &dyn Fn() -> Value) {
 
 const WORD_NAMES: [&str; 12] = ["lf", "lh", "bc", "ec", "nw", "nh", "nd", "ni", "nl", "nk", "ne", "np"];
 
-fn get_word(b: &[u8], w: usize) -> u16 {
+pub(crate) fn get_word(b: &[u8], w: usize) -> u16 {
     u16::from_be_bytes([b[2 * w], b[2 * w + 1]])
 }
 fn set_word(b: &mut [u8], w: usize, v: u16) {
@@ -274,7 +275,7 @@ fn set_word(b: &mut [u8], w: usize, v: u16) {
 }
 
 /// lf as the format defines it, computed in wide arithmetic from the other eleven words.
-fn consistent_lf(b: &[u8]) -> i64 {
+pub(crate) fn consistent_lf(b: &[u8]) -> i64 {
     let g = |w: usize| get_word(b, w) as i16 as i64;
     6 + g(1) + (g(3) - g(2) + 1) + g(4) + g(5) + g(6) + g(7) + g(8) + g(9) + g(10) + g(11)
 }
@@ -411,6 +412,21 @@ fn known_cases() -> Vec<(&'static str, KnownInput)> {
     }
     t.push_str(")\n(CHARACTER C A (CHARWD R 1.0))\n");
     v.push(("ligtable-32511-instructions", KnownInput::Pl(t)));
+    // 14. all 256 characters labelled beyond position 255: 256 entry-point redirections, the
+    // counter of which is a u8
+    let mut t = String::from("(LIGTABLE (LABEL BOUNDARYCHAR)\n");
+    for i in 0..256 {
+        t.push_str(&format!(" (KRN D {} R 0.{})\n", i, i));
+    }
+    t.push_str(" (STOP)\n");
+    for c in 0..256 {
+        t.push_str(&format!(" (LABEL D {c}) (KRN D {c} R 0.5) (STOP)\n"));
+    }
+    t.push_str(")\n");
+    for c in 0..256 {
+        t.push_str(&format!("(CHARACTER D {c} (CHARWD R 0.5))\n"));
+    }
+    v.push(("256-entry-point-redirections", KnownInput::Pl(t)));
     v
 }
 
@@ -453,7 +469,7 @@ fn mut_slots(tier: Tier, font: usize) -> usize {
     // conversions affordable for this font
     let budget_ns: f64 = match tier {
         Tier::Quick => 4.0e9,
-        Tier::Thorough => 50e9,
+        Tier::Thorough => 30e9,
     };
     let per_conv_ns = 20_000.0 + 40.0 * pl_len[font] as f64;
     let values_per_slot = match tier {
@@ -585,16 +601,16 @@ impl Monitor for M {
         let mut v = vec![
             Phase::new("known", known_cases().len() as u64).batch(1),
             Phase::new("hdr-short", ntempl * 12 * 2).batch(1),
-            Phase::new("hdr-rand", tier.pick(150_000, 6_000_000)).batch(2048),
+            Phase::new("hdr-rand", tier.pick(150_000, 3_000_000)).batch(2048),
             Phase::new("hdr-corpus", nt * 12).batch(1),
             Phase::new("hdr-shift", nt * 110 * shift_deltas(tier).len() as u64).batch(64),
             Phase::new("trunc", total_len.div_ceil(512)).batch(8),
             Phase::new("mut1", total_slots.max(1)).batch(32),
-            Phase::new("mut2", tier.pick(50_000, 1_000_000)).batch(64),
+            Phase::new("mut2", tier.pick(50_000, 600_000)).batch(64),
             Phase::new("pl-corpus", np * 44).batch(4),
-            Phase::new("pl-mut", tier.pick(45_000, 800_000)).batch(16),
-            Phase::new("pl-gen", tier.pick(500_000, 12_000_000)).batch(512),
-            Phase::new("pl-big", tier.pick(600, 20_000)).batch(2),
+            Phase::new("pl-mut", tier.pick(45_000, 500_000)).batch(16),
+            Phase::new("pl-gen", tier.pick(500_000, 6_000_000)).batch(512),
+            Phase::new("pl-big", tier.pick(660, 11_000)).batch(2),
             Phase::new("pl-nest", nest * NEST_SHAPES as u64).batch(1),
         ];
         if tier == Tier::Thorough {
@@ -608,7 +624,7 @@ impl Monitor for M {
         let q = tier == Tier::Quick;
         vec![
             ("tfm_inputs", if q { 1_000_000 } else { 40_000_000 }),
-            ("pl_inputs", if q { 500_000 } else { 10_000_000 }),
+            ("pl_inputs", if q { 500_000 } else { 6_000_000 }),
             ("tfm_ok_clean", 1_000),
             ("tfm_ok_with_warnings", 10_000),
             ("tfm_err:InternalFileLengthIsTooBig", 1_000),
@@ -627,7 +643,7 @@ impl Monitor for M {
             ("hdr_shift_parsed", 1_000),
             ("trunc_inputs", 100_000),
             ("mut1_inputs", 100_000),
-            ("pl_mut_cases", if q { 40_000 } else { 700_000 }),
+            ("pl_mut_cases", if q { 40_000 } else { 450_000 }),
             ("pl_mut:number", 1_000),
             ("pl_mut:drop", 1_000),
             ("pl_mut:duplicate", 1_000),
@@ -664,7 +680,7 @@ impl Monitor for M {
     fn watchdog_s(&self, tier: Tier) -> u64 {
         match tier {
             Tier::Quick => 900,
-            Tier::Thorough => 3 * 3600,
+            Tier::Thorough => 5 * 3600,
         }
     }
 
